@@ -125,6 +125,10 @@ class Check(PropertyCheck):
                     "(checked per case; its split/strip step is modelled)"]
     parallel = True
 
+    def setup(self, tier):
+        # the quick tier is faster in-process (20 000 cases take ~5 s); the fork pool only pays off for the thorough tier
+        self.parallel = (tier == "thorough")
+
     # ------------------------------------------------------------------ generation
     def _small_alphabet(self):
         ks = [b"a", b"A", b"b"]
